@@ -25,13 +25,31 @@ import (
 	"sort"
 	"sync"
 	"time"
+	_ "unsafe"
 
 	"github.com/openfga/openfga/internal/graph"
+	"github.com/openfga/openfga/internal/iterator"
 	"github.com/openfga/openfga/internal/planner"
 	"github.com/openfga/openfga/internal/verifharness/lib/rec"
 	"github.com/openfga/openfga/internal/verifharness/lib/scen"
 	"github.com/openfga/openfga/pkg/server/commands"
+	"github.com/openfga/openfga/pkg/storage"
 )
+
+// the unexported fast paths of internal/graph, reached by symbol name (the driver is compiled
+// inside /repo's module; no source file of /repo is touched)
+
+//go:linkname fastPathUnion github.com/openfga/openfga/internal/graph.fastPathUnion
+func fastPathUnion(ctx context.Context, streams *iterator.Streams, outChan chan<- *iterator.Msg)
+
+//go:linkname fastPathIntersection github.com/openfga/openfga/internal/graph.fastPathIntersection
+func fastPathIntersection(ctx context.Context, streams *iterator.Streams, outChan chan<- *iterator.Msg)
+
+//go:linkname fastPathDifference github.com/openfga/openfga/internal/graph.fastPathDifference
+func fastPathDifference(ctx context.Context, streams *iterator.Streams, outChan chan<- *iterator.Msg)
+
+//go:linkname lcWeight2 github.com/openfga/openfga/internal/graph.(*LocalChecker).weight2
+func lcWeight2(c *graph.LocalChecker, ctx context.Context, leftChans []<-chan *iterator.Msg, iter storage.TupleMapper) (*graph.ResolveCheckResponse, error)
 
 const maxDepth = 25
 
@@ -66,9 +84,10 @@ func allTunings() []tuning {
 var plannerNames = []string{"default", "weight2", "recursive", "perkey", "percall"}
 
 type plannerH struct {
-	name string
-	m    planner.Manager
-	seen func() map[string]int
+	name  string
+	m     planner.Manager
+	seen  func() map[string]int
+	reset func()
 }
 
 // a resolver chain for one (planner, breadth, throttle) combination
@@ -88,12 +107,12 @@ func newRig(seed uint64, depth uint32) *rig {
 	g := &rig{chains: map[string]*chain{}, depth: depth}
 	for _, n := range plannerNames[:3] {
 		fp := scen.NewForcedPlanner(n)
-		g.planners = append(g.planners, &plannerH{name: n, m: fp, seen: fp.SeenCounts})
+		g.planners = append(g.planners, &plannerH{name: n, m: fp, seen: fp.SeenCounts, reset: fp.ResetSeen})
 	}
 	pk := scen.NewSeededPlanner(seed, false)
 	pc := scen.NewSeededPlanner(seed+1, true)
 	g.seeded = []*scen.SeededPlanner{pk, pc}
-	g.planners = append(g.planners, &plannerH{name: "perkey", m: pk, seen: pk.SeenCounts}, &plannerH{name: "percall", m: pc, seen: pc.SeenCounts})
+	g.planners = append(g.planners, &plannerH{name: "perkey", m: pk, seen: pk.SeenCounts, reset: pk.ResetSeen}, &plannerH{name: "percall", m: pc, seen: pc.SeenCounts, reset: pc.ResetSeen})
 	return g
 }
 
@@ -151,15 +170,26 @@ var defaultTuning = tuning{Breadth: 10}
 // kind 1: scenarios
 
 type runOpts struct {
-	tier     string
-	verbose  bool
-	fullProb int // one request in fullProb gets the full matrix even when no strategy choice occurred
+	tier    string
+	verbose bool
+	full    int // requests per scenario that get the full matrix among those with a strategy choice
+	fullNo  int // ... among those without
+	ntune   int // tuning combinations per (request, planner); 0 = all
 }
 
 type cfgOut struct {
 	Planner string `json:"planner"`
 	Tuning  string `json:"tuning"`
 	Out     string `json:"out"`
+}
+
+type reqState struct {
+	sub, obj, rel string
+	si            int
+	outs          []map[int]bool
+	detail        []cfgOut
+	base          int
+	choice        bool
 }
 
 func runScenario(ctx context.Context, w *rec.Writer, r *rec.Rand, g *rig, s *scen.Scenario, subjects []string, ro runOpts) {
@@ -204,6 +234,9 @@ func runScenario(ctx context.Context, w *rec.Writer, r *rec.Rand, g *rig, s *sce
 	}
 	w.Stat("tuples", len(s.Tuples))
 	w.Stat("tuples_cond_error", nerr)
+	if nerr > 0 {
+		w.Stat("models_with_cond_error", 1)
+	}
 	if subjects == nil {
 		subjects = s.Subjects(r, 3)
 	}
@@ -211,14 +244,9 @@ func runScenario(ctx context.Context, w *rec.Writer, r *rec.Rand, g *rig, s *sce
 	atoms := in.Atoms(s, objects)
 	tunings := allTunings()
 	reps := 4
-	var svs []rec.V
-	var interesting []map[string]any
-	for _, sub := range subjects {
-		var pxs []rec.V
-		for _, p := range env.PathX(sub) {
-			pxs = append(pxs, rec.L(rec.I(in.T(p[0])), rec.I(in.R(p[1]))))
-		}
-		var res []rec.V
+	// pass 1: every request, the three forced planners, default tuning, one run each
+	var reqs []*reqState
+	for si, sub := range subjects {
 		for _, o := range objects {
 			ot, _ := scen.SplitObj(o)
 			td := s.Type(ot)
@@ -227,91 +255,129 @@ func runScenario(ctx context.Context, w *rec.Writer, r *rec.Rand, g *rig, s *sce
 			}
 			for _, rd := range td.Rels {
 				w.Stat("requests", 1)
-				// pass 1: the three forced planners, default tuning, one run each
-				before := g.seenNonDefault()
-				outs := make([]map[int]bool, len(g.planners))
-				for i := range outs {
-					outs[i] = map[int]bool{}
+				q := &reqState{sub: sub, obj: o, rel: rd.Name, si: si, outs: make([]map[int]bool, len(g.planners))}
+				for i := range q.outs {
+					q.outs[i] = map[int]bool{}
 				}
-				var detail []cfgOut
-				base := -1
+				before := g.seenNonDefault()
 				for p := 0; p < 3; p++ {
 					out, _ := env.Check(ctx, g.chain(p, defaultTuning).r, o, rd.Name, sub, nil)
 					w.Stat("checks", 1)
-					outs[p][out] = true
-					detail = append(detail, cfgOut{plannerNames[p], defaultTuning.String(), outNames[out]})
+					q.outs[p][out] = true
+					q.detail = append(q.detail, cfgOut{plannerNames[p], defaultTuning.String(), outNames[out]})
 					if p == 0 {
-						base = out
+						q.base = out
 						w.Stat("impl_"+outNames[out], 1)
 					}
 				}
-				choice := g.seenNonDefault() > before
-				if choice {
+				q.choice = g.seenNonDefault() > before
+				if q.choice {
 					w.Stat("requests_with_strategy_choice", 1)
 				}
-				if base != scen.OutInvalid && (choice || r.Chance(1, ro.fullProb)) {
-					w.Stat("requests_full_matrix", 1)
-					// pass 2: every planner x tunings x concurrent repetitions
-					for p := range g.planners {
-						ts := tunings
-						if ro.tier == "quick" {
-							// a random third of the tuning combinations per (request, planner)
-							idx := make([]int, len(tunings))
-							for i := range idx {
-								idx[i] = i
-							}
-							rec.Shuffle(r, idx)
-							ts = nil
-							for _, i := range idx[:4] {
-								ts = append(ts, tunings[i])
-							}
-						}
-						for _, t := range ts {
-							c := g.chain(p, t)
-							co := cmdOpts(t)
-							var wg sync.WaitGroup
-							got := make([]int, reps)
-							for k := 0; k < reps; k++ {
-								wg.Add(1)
-								go func(k int) {
-									defer wg.Done()
-									got[k], _ = env.Check(ctx, c.r, o, rd.Name, sub, nil, co...)
-								}(k)
-							}
-							wg.Wait()
-							w.Stat("checks", reps)
-							for _, out := range got {
-								if !outs[p][out] {
-									detail = append(detail, cfgOut{plannerNames[p], t.String(), outNames[out]})
-								}
-								outs[p][out] = true
-							}
-						}
-					}
-				}
-				all := map[int]bool{}
-				var pvs []rec.V
-				for p := range g.planners {
-					var l []int
-					for out := range outs[p] {
-						l = append(l, out)
-						all[out] = true
-					}
-					sort.Ints(l)
-					pvs = append(pvs, rec.LI(l))
-				}
-				if len(all) > 1 {
-					w.Stat("requests_with_differing_outcomes", 1)
-					interesting = append(interesting, map[string]any{"object": o, "relation": rd.Name, "user": sub, "outcomes": detail})
-					if ro.verbose {
-						fmt.Fprintf(os.Stderr, "DIFFER %s#%s@%s %v\n%s\n", o, rd.Name, sub, detail, s.String())
-					}
-				}
-				a, b := in.Obj(o)
-				res = append(res, rec.L(a, b, rec.I(in.R(rd.Name)), rec.I(base), rec.L(pvs...)))
+				reqs = append(reqs, q)
 			}
 		}
-		svs = append(svs, rec.L(in.Subject(sub), rec.L(pxs...), rec.L(res...)))
+	}
+	// pass 2: a sample of the requests gets every planner x tunings x concurrent repetitions
+	var withChoice, without []*reqState
+	for _, q := range reqs {
+		if q.base == scen.OutInvalid {
+			continue
+		}
+		if q.choice {
+			withChoice = append(withChoice, q)
+		} else {
+			without = append(without, q)
+		}
+	}
+	rec.Shuffle(r, withChoice)
+	rec.Shuffle(r, without)
+	if ro.full > 0 && len(withChoice) > ro.full {
+		withChoice = withChoice[:ro.full]
+	}
+	if len(without) > ro.fullNo {
+		without = without[:ro.fullNo]
+	}
+	for _, q := range append(withChoice, without...) {
+		w.Stat("requests_full_matrix", 1)
+		if q.choice {
+			w.Stat("requests_full_matrix_with_choice", 1)
+		}
+		for p := range g.planners {
+			ts := tunings
+			if ro.ntune > 0 && ro.ntune < len(tunings) {
+				idx := make([]int, len(tunings))
+				for i := range idx {
+					idx[i] = i
+				}
+				rec.Shuffle(r, idx)
+				ts = nil
+				for _, i := range idx[:ro.ntune] {
+					ts = append(ts, tunings[i])
+				}
+			}
+			for _, t := range ts {
+				c := g.chain(p, t)
+				co := cmdOpts(t)
+				var wg sync.WaitGroup
+				got := make([]int, reps)
+				for k := 0; k < reps; k++ {
+					wg.Add(1)
+					go func(k int) {
+						defer wg.Done()
+						got[k], _ = env.Check(ctx, c.r, q.obj, q.rel, q.sub, nil, co...)
+					}(k)
+				}
+				wg.Wait()
+				w.Stat("checks", reps)
+				for _, out := range got {
+					if !q.outs[p][out] {
+						q.detail = append(q.detail, cfgOut{plannerNames[p], t.String(), outNames[out]})
+					}
+					q.outs[p][out] = true
+				}
+			}
+		}
+	}
+	for _, p := range g.planners {
+		for k, v := range p.seen() {
+			w.Stat("planner_"+p.name+"_selected_"+k, v)
+		}
+	}
+	for _, p := range g.planners { // counters are cumulative over the run: report deltas only
+		p.reset()
+	}
+	res := make([][]rec.V, len(subjects))
+	var interesting []map[string]any
+	for _, q := range reqs {
+		all := map[int]bool{}
+		var pvs []rec.V
+		for p := range g.planners {
+			var l []int
+			for out := range q.outs[p] {
+				l = append(l, out)
+				all[decisionClass(out)] = true
+			}
+			sort.Ints(l)
+			pvs = append(pvs, rec.LI(l))
+		}
+		if len(all) > 1 {
+			w.Stat("requests_with_differing_decisions", 1)
+			interesting = append(interesting, map[string]any{"object": q.obj, "relation": q.rel, "user": q.sub, "outcomes": q.detail})
+			if ro.verbose {
+				fmt.Fprintf(os.Stderr, "DIFFER %s#%s@%s %v\n%s\n", q.obj, q.rel, q.sub, q.detail, s.String())
+			}
+		}
+		a, b := in.Obj(q.obj)
+		res[q.si] = append(res[q.si], rec.L(a, b, rec.I(in.R(q.rel)), rec.I(q.base), rec.L(pvs...)))
+	}
+	var svs []rec.V
+	for si, sub := range subjects {
+		var pxs []rec.V
+		for _, p := range env.PathX(sub) {
+			pxs = append(pxs, rec.L(rec.I(in.T(p[0])), rec.I(in.R(p[1]))))
+		}
+		svs = append(svs, rec.L(in.Subject(sub), rec.L(pxs...), rec.L(res[si]...)))
 	}
 	desc := map[string]any{"kind": 1, "scenario": s, "subjects": subjects, "text": s.String()}
 	if len(interesting) > 0 {
@@ -321,6 +387,17 @@ func runScenario(ctx context.Context, w *rec.Writer, r *rec.Rand, g *rig, s *sce
 		desc["differing"] = interesting
 	}
 	w.Case(desc, rec.I(1), model, conds, rec.L(tvs...), atoms, rec.I(maxDepth), rec.L(svs...))
+}
+
+// allowed / denied (with or without the CycleDetected flag) / error
+func decisionClass(out int) int {
+	switch out {
+	case scen.OutAllowed:
+		return 0
+	case scen.OutDenied, scen.OutDeniedCy:
+		return 1
+	}
+	return 2
 }
 
 // ---------------------------------------------------------------------------------------------
@@ -336,9 +413,19 @@ func main() {
 	w := rec.NewWriter(o.Out)
 	defer w.Close()
 	ctx := context.Background()
-	ro := runOpts{tier: o.Tier, verbose: os.Getenv("C02_VERBOSE") != "", fullProb: 8}
+	ro := runOpts{tier: o.Tier, verbose: os.Getenv("C02_VERBOSE") != "", full: 10, fullNo: 2, ntune: 4}
+	if o.Tier == "thorough" {
+		ro = runOpts{tier: o.Tier, verbose: ro.verbose, full: 30, fullNo: 5, ntune: 0}
+	}
 	g := newRig(o.Seed, maxDepth)
 	defer g.close()
+	rigs := map[int]*rig{}
+	defer func() {
+		for _, x := range rigs {
+			x.close()
+		}
+	}()
+	lc := graph.NewLocalChecker()
 	if o.Replay != "" {
 		f, err := os.Open(o.Replay)
 		if err != nil {
@@ -347,8 +434,7 @@ func main() {
 		defer f.Close()
 		sc := bufio.NewScanner(f)
 		sc.Buffer(make([]byte, 1<<20), 1<<26)
-		ro.tier = "thorough"
-		ro.fullProb = 1
+		ro.full, ro.fullNo, ro.ntune = 0, 1<<30, 0
 		for sc.Scan() {
 			var d replayDesc
 			if json.Unmarshal(sc.Bytes(), &d) != nil {
@@ -359,14 +445,56 @@ func main() {
 				if d.Scenario != nil {
 					runScenario(ctx, w, rec.NewRand(1), g, d.Scenario, d.Subjects, ro)
 				}
+			case 5:
+				if d.Scenario != nil {
+					runLO(ctx, w, rec.NewRand(1), g, d.Scenario, d.Subjects)
+				}
+			case 2:
+				var c bfsCase
+				if json.Unmarshal(sc.Bytes(), &c) == nil {
+					runBFS(ctx, w, rigs, o.Seed, c)
+				}
+			case 3:
+				var c fpCase
+				if json.Unmarshal(sc.Bytes(), &c) == nil {
+					runFP(w, c)
+				}
+			case 4:
+				var c w2Case
+				if json.Unmarshal(sc.Bytes(), &c) == nil {
+					runW2(w, lc, c, 40)
+				}
 			}
 		}
 		return
 	}
 	r := rec.NewRand(o.Seed)
+	only := os.Getenv("C02_ONLY") // development aid: restrict to one record kind
 	for i := 0; i < o.N; i++ {
 		rr := r.Fork()
-		s := scen.GenerateC02(rr, scen.DefaultOpts(), rr.Chance(3, 4))
+		noErr := rr.Chance(3, 4)
+		s := scen.GenerateC02(rr, scen.DefaultOpts(), noErr)
+		if only == "5" {
+			if noErr {
+				runLO(ctx, w, rr, g, s, nil)
+			}
+			continue
+		}
 		runScenario(ctx, w, rr, g, s, nil, ro)
+		if only == "1" {
+			continue
+		}
+		if noErr && i%2 == 0 {
+			runLO(ctx, w, rr, g, s, nil)
+		}
+		for k := 0; k < 12; k++ {
+			runFP(w, genFP(rr))
+		}
+		for k := 0; k < 6; k++ {
+			runW2(w, lc, genW2(rr), 6)
+		}
+		for k := 0; k < 3; k++ {
+			runBFS(ctx, w, rigs, o.Seed, genBFS(rr))
+		}
 	}
 }
